@@ -198,12 +198,12 @@ Create(t, c) ==
 
 (* an operator new call of the storage (grain "alloc") *)
 New(t) ==
-    LET c == pc[t].c
-        sz == Sz(c) + Trailer
-        s == Lowest(heap) IN
     /\ pc[t].at \in {"new_heap", "new_shared"}
     /\ UNCHANGED <<env, busy, inv, torn>>
-    /\ IF At(t, "new_heap")
+    /\ LET c == pc[t].c
+           sz == Sz(c) + Trailer
+           s == Lowest(heap) IN
+       IF At(t, "new_heap")
          THEN /\ Commit(DoNew(St, sz))
               /\ fr' = Append(fr, Rec(c, "heap", s, sz, "own", FALSE))
               /\ Resume(t)
@@ -218,11 +218,11 @@ New(t) ==
 
 (* an operator delete call of the storage (grain "alloc") *)
 Del(t) ==
-    LET c == pc[t].c
-        sz == Sz(c) + Trailer IN
     /\ pc[t].at \in {"del_old", "del_after", "delete"}
     /\ UNCHANGED <<env, busy, inv, torn>>
-    /\ CASE At(t, "del_old") ->      \* coro_storage.h:50: _ptr keeps the released address until line 51
+    /\ LET c == pc[t].c
+           sz == Sz(c) + Trailer IN
+       CASE At(t, "del_old") ->      \* coro_storage.h:50: _ptr keeps the released address until line 51
               /\ Commit(DoDel(St, ptr))
               /\ Park(t, "new_shared", c, 0)
               /\ UNCHANGED fr
